@@ -1,6 +1,16 @@
 from vcommon import Suite
 import coqreplay
 
+
+def rewrite_time_c09(dst):
+    """In the scratch copy only, import line only: `"time"` of internal/counter/file.go goes through the shim
+    vtime (everything is the real package time except AfterFunc, whose timers the harness records and fires)."""
+    p = dst / "internal" / "counter" / "file.go"
+    t = p.read_text()
+    t2 = t.replace('\t"time"\n', '\ttime "golang.org/x/telemetry/internal/verifh/shim/vtime"\n')
+    if t2 != t:
+        p.write_text(t2)
+
 SPEC = {
     "id": "C09",
     "title": "Counter-file week boundaries are computed and honoured consistently",
@@ -8,7 +18,7 @@ SPEC = {
     "suites": [
         Suite(name="span", harness="vh_c09", runner="c09",
               model_deps=["theories/Model/Span.vo"],
-              quick_n=1500, thorough_n=40000, coq_replay=coqreplay.span,
+              quick_n=1500, thorough_n=40000, coq_replay=coqreplay.span, rewrite=rewrite_time_c09,
               rule="cases: real counterSpan (50%), real rotate1 metadata+file name (20%), increments around a second "
                    "rotate1 (20%), real uploader run with start at end-1ns/end/end+1ns/... (10%); times over 0001..9998 "
                    "with month ends, leap days, midnight+-1s; weekends file valid/missing/empty/malformed. "
